@@ -19,6 +19,7 @@ def obligations():
     o2 = c14['O14.1-complete-n2']; o2.ob_id = 'O5.2-difficulty-complete'
     o2q = c14['O14.1-complete-q0']; o2q.ob_id = 'O5.2-difficulty-complete-q0'; o2m = c14['O14.1-complete-n01']; o2m.ob_id = 'O5.2-difficulty-complete-n01'
     o2s = c14['O14.1-complete-q1s']; o2s.ob_id = 'O5.2-difficulty-complete-q1s'
+    o3p = c11['O11.1-predicates']; o3p.ob_id = 'O5.3-retry-predicates'; o3p.desc = '[a peer that could not be asked for a proof yet is asked again on the next refresh: OnlyHasLastState requires a new proof] ' + o3p.desc
     o3 = c11['O11.1-step']; o3.ob_id = 'O5.3-state-machine-accepts-documented-events'
     return [
         KModelOb('O5.1-honest-accepted', 'slsp', 'honest_q', 'check_if_response_is_matched (real text) accepts the response an honest RFC-44 prover builds '
@@ -30,5 +31,5 @@ def obligations():
         KModelOb('O5.1-honest-without-samples', 'slsp', 'honest_without_samples', 'the remaining case of O5.1: a sampling request whose honest answer carries no sampled header '
                  '(every requested difficulty is reached inside the last-N section; always so when the peer is exactly last_n + 1 blocks ahead) is accepted', C01.ex_slsp, 'chains of 5 blocks, last-N in {1,2}',
                  cuts=C01.CUTS, timeout=1500, mem_gb=10, min_covers=2, weight=4),
-        o2, o2q, o2s, o2m, o3,
+        o2, o2q, o2s, o2m, o3, o3p,
     ] + common.shared('C12', ['O12.5-remembered-headers'], 'O5', 'the client remembers the last N proven headers, so that an honest fork shallower than last-N is followed instead of being taken for a long fork')
